@@ -21,7 +21,7 @@ RULE = ('random expression trees of depth 1..6 over + - neg abs *k k* /k %k with
         'distinct = (class, operator, operand-class, sign/zero class) buckets')
 ASSUMPTIONS = ['angle_exact gives the denoted value of every operand/result from the stored fields (exact rationals)',
                'comparisons closer than the 1e-8" resolution may answer either way (DESIGN.md section 5)']
-REQUIRED_COUNTERS = ['numpy_scalar_operands', 'round_then_mod_sequences', 'op:add', 'op:sub', 'op:radd', 'op:rsub', 'op:mul', 'op:rmul', 'op:truediv', 'op:neg', 'op:abs', 'op:mod', 'op:eq', 'op:lt',
+REQUIRED_COUNTERS = ['modulus_equal_to_angle', 'numpy_scalar_operands', 'round_then_mod_sequences', 'op:add', 'op:sub', 'op:radd', 'op:rsub', 'op:mul', 'op:rmul', 'op:truediv', 'op:neg', 'op:abs', 'op:mod', 'op:eq', 'op:lt',
                      'op:gt', 'op:ne', 'op:round', 'trees']
 N = {'quick': 400, 'thorough': 6000}
 SHARDS = {'quick': 16, 'thorough': 32}
@@ -120,7 +120,13 @@ class OpMonitors:
         err = abs(dr - want)
         if op == '__mod__':
             k = abs(Fraction(float(b)))
-            err = min(err, abs(err - k))       # wrap-around at a multiple of the modulus is the same angle class
+            n = type(a).__name__
+            fdec = (a.degree + a.minute / 60 + a.second / 3600) if n == 'DMSAngle' else (a.degree + a.minute / 60)
+            exact_operand = Fraction(fdec) == abs(da)          # the decimal-degree value of the operand is exact in floats
+            if (da / k).denominator != 1 or not exact_operand:
+                # next to (not on) a multiple of the modulus the float remainder may legitimately come out just below the
+                # modulus or just above zero; an operand that IS a multiple (exactly representable) must give zero
+                err = min(err, abs(err - k))
         ctx.maxi('C12.op_err_arcsec', float(err * 3600))
         if err > tol:
             kind = 'wrong-sign' if abs(dr + want) <= tol and abs(want) > tol else 'wrong-value'
@@ -467,7 +473,8 @@ def compare_and_round(ns, ctx, rnd, v1, v2, c1, c2):
         except Exception:
             continue
         d = float(ax.denote(o))
-        for k in (math.floor(abs(d)) + rnd.choice([0.5, 0.25, 0.1]), rnd.choice([0.5, 0.25, 1.5, 7.5, 90.5]), float(int(abs(d)) + 1),
+        for k in (abs(d), int(abs(d)) if abs(d) == int(abs(d)) and d else abs(d),
+                  math.floor(abs(d)) + rnd.choice([0.5, 0.25, 0.1]), rnd.choice([0.5, 0.25, 1.5, 7.5, 90.5]), float(int(abs(d)) + 1),
                   round(rnd.uniform(0.1, 400.0), rnd.choice([0, 1, 3]))):
             if k <= 0:
                 continue
@@ -479,6 +486,18 @@ def compare_and_round(ns, ctx, rnd, v1, v2, c1, c2):
             r = round(o, rnd.choice([0, 1, 2, 3]))
             r % rnd.choice([360, 180, float(int(abs(d)) + 1), 90])
             ctx.count('round_then_mod_sequences')
+        except Exception:
+            pass
+    # an angle that equals the modulus bit for bit (whole degrees / half degrees are exact): the result must be zero
+    for cls in ('DMSAngle', 'DDMAngle'):
+        D = rnd.choice([1, 30, 90, 180, 360, rnd.randint(1, 359)])
+        half = rnd.random() < 0.3
+        try:
+            o = getattr(A, cls)(D, 30 if half else 0) if cls == 'DDMAngle' else getattr(A, cls)(D, 30 if half else 0, 0)
+            k = (D + 0.5) if half else rnd.choice([D, float(D)])
+            o % k
+            (o + getattr(A, cls)(0)) % k
+            ctx.count('modulus_equal_to_angle')
         except Exception:
             pass
     # the reflected operators are never reached by `x + y` between two angle objects (the left operand's own
